@@ -540,8 +540,12 @@ func (m *ctlModel) eval(fr *mFrame, e Expr) (mValue, completion) {
 		if abruptExpr(c) {
 			return nil, c
 		}
-		if p, ok := v.(*mPromise); ok && e.Tamper {
+		if p, ok := v.(*mPromise); ok && e.Tamper == 1 {
 			p.tampered = true
+		}
+		if _, ok := v.(*mPromise); ok && e.Tamper == 2 {
+			// PromiseResolve(%Promise%, p) reads p.constructor, whose getter throws: the await expression throws
+			return nil, throwC(e.TamperVal)
 		}
 		rv, rc := m.await(fr, v)
 		if rc.t != cNormal {
